@@ -18,9 +18,21 @@ TRUSTED = [
     " getDocPosByLIDs -> block/offset); reload of a sealed fraction is the IDENTITY on these tables in the model —"
     " that the real loader (sealed_loader.go, IDs/LIDs/token block codecs, fraction info cache) reproduces them is"
     " compared on every run (sealed tables read back through the real loaders before and after a restart), not proved",
+    "hand-written model props/C17/coq/ModelConc.v of SEVERAL index workers on one active fraction (appendWorker run by"
+    " k goroutines): every worker owns a queue of bulks and advances in atomic steps, one per critical section of the"
+    " real code — DocBlocks.Append (block index), the WHOLE DocsPositions.SetMultiple under its write lock (lookup and"
+    " store of every ID of the bulk) followed by the local Filter, Active.AppendIDs (both ID locks), PutLIDsInQueue of"
+    " one token (all-token last), UpdateStats — executed under an arbitrary schedule; that each of these is one atomic"
+    " step (the lock really covers it) is an assumption of the model that the stress classes set-stress / pipe-stress"
+    " test on every run, not a proved fact; TokenList.Append (token table) and the merge workers are not modelled;"
+    " the variant with SetMultiple cut into a read-locked lookup and a write-locked store is kept as a refuted Example",
+    "stress cases (CSetStress, CPipeStress) are evaluated in Coq against a range-level model (CaseDefs.ranges_run:"
+    " first writer wins on ranges of document numbers) and a point-by-point reference (distinct_pts), NOT against the"
+    " list model: bulks of tens of thousands of documents are described by ranges",
     "Go harness harness/cmd/hC17 (generators, token table, body bytes <-> tag = variant*4096+length, sorting of LID"
     " lists and buckets) and the add-only export files frac/export_verif_c17.go, frac/export_verif_c17_sealed.go,"
-    " fracmanager/export_verif_c17.go, fracmanager/export_verif_c17_fracs.go",
+    " fracmanager/export_verif_c17.go, fracmanager/export_verif_c17_fracs.go, frac/export_verif_c17_conc.go"
+    " (sizes of the index state, IDs holding more than one LID)",
     "the docs/meta block codecs (zstd, DocBlock headers, docs offsets derived from meta blocks during replay), the"
     " index file codecs and the query engine below the LID lists: NOT modelled; exercised by every history (test)",
     "harness/internal/storectl: every history runs on a real store inside a child process, so that a panic in an"
@@ -47,6 +59,12 @@ ASSUME = [
     " delivery of an ID wins is scheduling dependent; those histories (class history-conc) carry identical bytes on"
     " every delivery and only order-insensitive observables (search, totals, histogram, aggregation, DocsTotal,"
     " fetch, and the sealed tables with sorted docs) are compared",
+    "concurrent deliveries: the theorem C17_concurrent_first_writer_wins covers every interleaving of the modelled"
+    " atomic steps; the real interleaving of a run is not observable without source hooks, so class conc-steps compares"
+    " the real store with the step model under a schedule drawn by the driver on order-insensitive observables only"
+    " (search, totals, histogram, aggregation, DocsTotal, fetch with identical bytes), and the stress classes check the"
+    " schedule-independent consequences (every ID accepted exactly once, DocsTotal = distinct IDs); a violation found"
+    " by a stress class is a race: its replay repeats the case 3 times and may need several attempts",
     "repeats landing in ANOTHER fraction carry the original bytes (cross-fraction fetch order is not modelled)",
     "DocsRaw (raw bytes appended) is not part of the observables: the code counts a dropped repeat's bytes again",
 ]
@@ -61,6 +79,16 @@ RULE = ("collector cases: random bulks (0/1/many tokens, nested metas, repeated 
         "(restart of an empty store, seal of an empty fraction, double seal, double restart, repeat-only bulk); "
         "copies of the index state of every fraction (active: LID table, postings, positions; sealed: LID table, "
         "position per LID, postings, block count, Info) after restarts and seals. "
+        "concurrent classes: conc-steps (2-5 small bulks — copies, reordered copies, partial overlaps with new "
+        "documents, new documents only, nested metas, optionally after a first bulk — delivered at once to a store with 4 "
+        "index workers; the step model under a random interleaving with bursts must finish and predict the observables); "
+        "set-stress (2-8 goroutines call the real DocsPositions.SetMultiple at the same moment with identical, then "
+        "partially overlapping, lists of 60-75 thousand IDs: IDs returned in total / by exactly one / by several / by no "
+        "call, size of the map, stored position = position of a call that got the ID back); pipe-stress (the same bulk of "
+        "30-37 thousand tiny documents released together 2-8 times into FracManager.Append of a store with 4-8 index "
+        "workers, several rounds per fraction, every third round partially overlapping ranges incl. an empty one: new LIDs, "
+        "IDs with more than one LID, new positions, DocsTotal, all-token LIDs, Total of `*` and of k:a, fetch of the "
+        "range borders and a sample). "
         "plus two stats-only observations outside the quantifier (observation:repeat-new-token-empty-posting, "
         "observation:same-bulk-duplicate-id). non-trivial = filter with some but not all documents dropped / "
         "history with repeats and new documents; distinct by input")
